@@ -1,9 +1,11 @@
 """C10  RTLIR type-checker widths are the real widths; accepted code has no width errors.
 
 spec/RTLIRTypes.tla (width rule table of docs/ref/datatypes.rst as pure operators + a small
-exhaustive model with an executable Bits/int value semantics), spec/RTLIRTypesTrace.tla (trace
-validation).  helper modules: harness/c10_lang.py (language, generators), harness/c10_obs.py
-(per-node static / run-time observation).
+exhaustive model with an executable Bits/int value semantics; bitstruct shapes and their packed
+width from spec/BitStruct.tla), spec/RTLIRStructs.tla (exhaustive model of the struct / list-field
+rules over a bounded family of bitstruct types), spec/RTLIRTypesTrace.tla (trace validation).
+helper modules: harness/c10_lang.py (language, generators), harness/c10_obs.py (per-node static /
+run-time observation).
   1. TLC model-checks RTLIRTypes.tla: every expression up to depth 2 over small leaves, every
      environment: W >= 1, W is the run-time width, well-typed unexcused blocks raise no width
      error, re-sizing never truncates, explicit mismatches raise.  A violated invariant is a
@@ -12,11 +14,21 @@ validation).  helper modules: harness/c10_lang.py (language, generators), harnes
      misbehaves, the model misrepresents the code: machinery failure.)
   2. spec -> code: every state of the dumped model graph, and every counterexample state of 1.,
      is rendered as a real update block, type checked, simulated and validated (same comparison
-     as 3); only that comparison produces violations.
-  3. code -> spec: generated update blocks (random + systematic families) and the repo's own
+     as 3); only that comparison produces violations.  The same for RTLIRStructs.tla: TLC checks
+     that the rule table's width of every access path into a bitstruct signal (fields at every
+     depth, every dimension of a list field, partial indexing) is the width of the packed value
+     and that struct <-> BitsN assignments are mismatches exactly when the widths differ; every
+     copy / pack / unpack state of its graph is replayed as a real block.
+  3. code -> spec: generated update blocks (random + systematic families, among them a bitstruct
+     family: nested structs, 1-D/2-D/3-D list fields, whole-struct reads / writes, struct <-> BitsN
+     in both directions with the right and with plausible wrong widths, struct temporaries,
+     constants, instances, struct ports of sub-components / interfaces / port arrays) and the repo's own
      RTLIR test-case components: BehavioralRTLIRGenPass + BehavioralRTLIRTypeCheckPass, per node
      (kind, static width, _is_explicit) and the run-time nbits of the same Python ast node in the
-     simulated component; RTLIRTypesTrace requires static = rule table = run time, no width
+     simulated component (a struct's width: the sum of its fields, a list field's: element x
+     product of the dimensions, both computed by the spec from the shape of the declared Python
+     type; at run time nbits of to_bits() / of all elements of the list);
+     RTLIRTypesTrace requires static = rule table = run time, no width
      ValueError for accepted blocks (casts / unequal shifts excepted), and rejection whenever the
      simulation raises a width error and the spec sees an ExplicitMismatch.
   4. literal clause: inferred width of 2^k + {-1,0,1} (k <= 70) and random literals = BitLen.
@@ -136,6 +148,85 @@ def _model_check(res, tier):
                                      "invariant_counterexamples": dict(collections.Counter(r.violated))})
         res.distinct(("model", name, r.distinct))
     return [cexs[k] for k in sorted(cexs)]
+
+
+# vacuity conditions that depend on the checker's verdicts: a tree that breaks the property may also trip them, so
+# they are raised (MachineryError) at the end of the run and only if no violation was found
+_DEFERRED = []
+
+
+STRUCT_INVS = ["TypeOK", "WidthIsPackedWidth", "WidthIsSumAndProduct", "AcceptedNoWidthError",
+               "MismatchIffWidthError", "CopyWellTyped"]
+STRUCT_ACTIONS = ["Field", "IndexC", "IndexV", "Copy", "Pack", "Unpack"]
+
+
+def _struct_cfg(tier, invs=True):
+    hdr, lw, dims, mld, zi = (({1}, {2}, {2, 3}, 3, False) if tier == "quick" else ({1}, {1, 2}, {2, 3}, 3, True))
+    c = ("SPECIFICATION Spec\nCHECK_DEADLOCK FALSE\nCONSTANTS\n HdrWs = %s\n LeafWs = %s\n Dims = %s\n MaxListDim = %d\n ZeroIdx = %s\n"
+         % (_set(hdr), _set(lw), _set(dims), mld, "TRUE" if zi else "FALSE"))
+    if invs:
+        c += "".join("INVARIANT %s\n" % i for i in STRUCT_INVS)
+    return c, {"HdrWs": sorted(hdr), "LeafWs": sorted(lw), "Dims": sorted(dims), "MaxListDim": mld, "ZeroIdx": zi}
+
+
+def _struct_model_check(res, tier):
+    """TLC on RTLIRStructs.tla: the struct / list-field rules against the packed-value semantics of
+    BitStruct.tla, with the state graph dumped for the replay.  Both sides are specification: a violated
+    invariant is a machinery failure.  -> states of the graph"""
+    cfg, bounds = _struct_cfg(tier)
+    r, states, init, edges = tlc.dump_graph("RTLIRStructs", cfg_text=cfg, timeout=3000)
+    res.add_tlc(r)
+    if r.violated:
+        raise MachineryError("RTLIRStructs.tla violates %s: the struct rules of RTLIRTypes.tla and the packed-value "
+                             "semantics of BitStruct.tla disagree\n%s" % (r.violated, r.out[-2500:]))
+    if r.errors or not r.ok or not states:
+        raise MachineryError("TLC failed on RTLIRStructs: %s\n%s" % (r.errors[:3], r.out[-2000:]))
+    if r.distinct < 500 or len(states) != r.distinct:
+        raise MachineryError("RTLIRStructs model explored %d states, %d dumped" % (r.distinct, len(states)))
+    taken = collections.Counter(e[2] for e in edges)
+    for act in STRUCT_ACTIONS:
+        if taken.get(act, 0) == 0:
+            raise MachineryError("action %s never taken in RTLIRStructs (vacuous): %s" % (act, dict(taken)))
+    res.note("model_structs", dict(bounds, states=r.distinct, invariants=STRUCT_INVS, actions=dict(taken)))
+    res.distinct(("model", "structs", r.distinct))
+    return states
+
+
+def _struct_spec_to_code(res, tier, workdir, states):
+    """the copy / pack / unpack states of the RTLIRStructs graph as real update blocks (quick tier: every state
+    whose path ends at a struct or a list, a seeded third of those ending at a Bits field)"""
+    R = rng("c10-struct-model")
+    blocks, ops, skipped = [], collections.Counter(), 0
+    for j, (sid, st) in enumerate(sorted(states.items())):
+        ops[st["op"]] += 1
+        if st["op"] == "nav":
+            continue
+        if tier == "quick" and _ends_at_leaf(st) and R.random() >= 1 / 3:
+            skipped += 1
+            continue
+        blocks.append(L.struct_model_block("Q%d" % j, st))
+    if min(ops.get(o, 0) for o in ("copy", "pack", "unpack")) == 0:
+        raise MachineryError("RTLIRStructs graph has no %s states: %s" % ("/".join(("copy", "pack", "unpack")), dict(ops)))
+    recs = _observe(blocks, workdir, nsamples=2)
+    good = _prepare(res, recs, "struct_model_states")
+    res.note("struct_spec_to_code_states", dict(ops))
+    res.note("struct_spec_to_code_replayed", len(good))
+    res.note("struct_spec_to_code_not_sampled", skipped)
+    if len(good) < len(blocks) * 9 // 10:
+        raise MachineryError("only %d of %d RTLIRStructs states could be replayed" % (len(good), len(blocks)))
+    acc = sum(1 for g in good if g["verdict"] == "accepted")
+    if acc < len(good) // 4:
+        _DEFERRED.append("only %d of %d replayed RTLIRStructs blocks are accepted by the type checker" % (acc, len(good)))
+    g = good[len(good) // 2]
+    res.sample({"kind": "spec->code (structs)", "block": g["src"], "verdict": g["verdict"]})
+    return good
+
+
+def _ends_at_leaf(st):
+    sh = st["sh"]
+    for p in st["path"]:
+        sh = next(f["t"] for f in sh["fs"] if f["n"] == p["n"]) if p["k"] == "f" else sh["t"]
+    return sh["k"] == "leaf"
 
 
 # ------------------------------------------------------------------------------------------
@@ -258,7 +349,7 @@ def _is_const(nodes, nid):
 
 _OPERANDS = {"binop": ("a", "b"), "shift": ("a", "b"), "cmp": ("a", "b"), "ifexp": ("a", "b"), "unop": ("a",),
              "cast": ("a",), "zext": ("a",), "sext": ("a",), "trunc": ("a",), "reduce": ("a",), "slice": ("a",),
-             "bit": ("a", "i"), "elem": ("i",), "field": ("a",)}
+             "bit": ("a", "i"), "elem": ("i",), "field": ("a",), "idx": ("a", "i"), "sinst": ()}
 
 
 def _kclass(nodes, pos):
@@ -267,6 +358,9 @@ def _kclass(nodes, pos):
     n = nodes[pos - 1]
     if n["k"] in ("binop", "shift", "unop") and _is_const(nodes, pos):
         return "folded-constant"
+    if "tc" in n and n["k"] in ("sig", "field", "idx", "elem", "tmp", "sinst", "ifexp"):
+        # a bitstruct / list-field typed node: the class of its type (struct[list2d], list1d, ...)
+        return "%s<%s>" % (n["k"], n["tc"])
     ops = []
     for f in _OPERANDS.get(n["k"], ()):
         c = nodes[n[f] - 1]
@@ -294,7 +388,7 @@ def _int_sources(nodes, todo):
     src, todo = set(), list(todo)
     while todo:
         c = nodes[todo.pop() - 1]
-        if c["k"] in ("loopvar", "ifexp", "cmp", "tmp", "elem", "field"):
+        if c["k"] in ("loopvar", "ifexp", "cmp", "tmp", "elem", "field", "idx"):
             src.add(c["k"])
         if c["k"] not in ("cmp", "tmp", "loopvar"):
             todo += [c[f] for f in _OPERANDS.get(c["k"], ()) if f in c]
@@ -344,6 +438,12 @@ def _key_for(err, pos, rec):
         iu = _int_unop_under(nodes, first) if first else None
         if iu:
             return "int-arith-not-folded:" + iu, nodes[first - 1]
+        # a subtraction of two run-time Python ints the checker cannot fold gave a negative int
+        for j, c in enumerate(nodes[:first or 0]):
+            if c.get("rneg") and c["k"] in ("binop", "shift") and not _is_const(nodes, j + 1) \
+                    and not nodes[c["a"] - 1].get("rneg") and not nodes[c["b"] - 1].get("rneg"):
+                # (Bits - Bits and Bits - int wrap around: only int - int is negative)
+                return "int-arith-not-folded:%s[%s]" % (c["k"], _int_sources(nodes, [c["a"], c["b"]])), c
         return "%s:%s" % (err, _kclass(nodes, first) if first else "?"), (nodes[first - 1] if first else None)
     n = nodes[pos - 1]
     lit = _literal_cause([n]) if n["k"] == "num" else None
@@ -663,18 +763,34 @@ def _generated(res, tier, workdir):
     blocks += L.context_literal_blocks(R, 192 if quick else 1920)
     blocks += L.loop_blocks()
     blocks += L.shape_blocks()
+    sblocks = L.struct_blocks(rng("c10-structs"), 1 if quick else 12, light=quick)
+    res.note("struct_family_blocks", len(sblocks))
+    blocks += sblocks
     recs = _observe(blocks, workdir)
     good = _prepare(res, recs, "generated")
     kinds = collections.Counter(n["k"] for r in good for n in r["nodes"])
     res.note("generated_node_kinds", dict(kinds))
     for k in ("sig", "field", "num", "bconst", "cast", "unop", "binop", "shift", "cmp", "ifexp", "concat", "zext",
-              "sext", "trunc", "reduce", "bit", "elem", "slice", "loopvar", "tmp", "assign", "if", "for"):
+              "sext", "trunc", "reduce", "bit", "elem", "slice", "loopvar", "tmp", "assign", "if", "for", "idx",
+              "sinst"):
         if kinds.get(k, 0) == 0:
             raise MachineryError("generator never produced a %r node" % k)
     acc = [r for r in good if r["verdict"] == "accepted"]
     if len(acc) < len(good) // 4:
         raise MachineryError("only %d of %d generated blocks are accepted by the type checker (vacuous)"
                              % (len(acc), len(good)))
+    # the bitstruct family must be exercised: struct / list typed nodes of every class, with run-time widths
+    tcs = collections.Counter(n["tc"] for r in acc for n in r["nodes"] if "tc" in n and n["rk"] == "bits")
+    res.note("struct_type_classes_observed", dict(tcs))
+    for tc in ("struct", "struct[list1d]", "struct[list2d]", "struct[list3d]", "struct[list2d][nested]",
+               "list1d", "list2d", "list3d"):
+        if tcs.get(tc, 0) == 0:
+            _DEFERRED.append("no accepted block with a run-time observed node of type class %s" % tc)
+    sacc = [r for r in good if r["tag"].startswith("struct")]
+    sv = collections.Counter((r["tag"], r["verdict"]) for r in sacc)
+    res.note("struct_family_verdicts", {"%s/%s" % k: v for k, v in sv.items()})
+    if sv.get(("struct", "accepted"), 0) < sum(v for (t, _), v in sv.items() if t == "struct") // 2:
+        _DEFERRED.append("less than half of the width-correct bitstruct family is accepted: %s" % dict(sv))
     nrej_mis = sum(1 for r in good if r["verdict"] == "rejected" and r["sim"]["raised"] and r["sim"]["cat"] == "width")
     res.note("rejected_blocks_that_raise_width_error_in_simulation", nrej_mis)
     return good
@@ -683,6 +799,22 @@ def _generated(res, tier, workdir):
 # ------------------------------------------------------------------------------------------
 # 5. canaries
 # ------------------------------------------------------------------------------------------
+
+def _drop_inner_dim(ty):
+    """remove the innermost dimension of the first multi-dimensional list field below ty (in place)"""
+    if ty["k"] == "list":
+        if ty["t"]["k"] == "list":
+            if ty["t"]["t"]["k"] != "list":
+                if ty["t"]["n"] == 1:
+                    return False
+                ty["t"] = ty["t"]["t"]
+                return True
+            return _drop_inner_dim(ty["t"])
+        return _drop_inner_dim(ty["t"])
+    if ty["k"] == "struct":
+        return any(_drop_inner_dim(f["t"]) for f in ty["fs"])
+    return False
+
 
 def _canaries(res, good, verdicts, lit_traces, lit_verdicts):
     can, kinds = [], []
@@ -739,7 +871,48 @@ def _canaries(res, good, verdicts, lit_traces, lit_verdicts):
             t["sw"] += 1
             can.append(t)
             kinds.append("lit")
-    need = {"static", "runtime", "literal", "flip", "raise", "lit"}
+    # (g) the static width of a bitstruct / list-field typed node altered
+    for r in okacc:
+        idx = [i for i, n in enumerate(r["nodes"]) if "tc" in n and n["k"] in ("sig", "field", "idx", "elem", "tmp")
+               and n["sw"] > 1 and n["rk"] == "bits"]
+        if idx and kinds.count("struct-static") < 12:
+            t = copy.deepcopy(_trace_of(r))
+            j = idx[len(can) % len(idx)]
+            t["nodes"][j]["sw"] += 1 if kinds.count("struct-static") % 2 else -1
+            can.append(t)
+            kinds.append("struct-static")
+    # (h) one list dimension dropped from the declared shape of a struct signal (static and run time unchanged)
+    for r in okacc:
+        idx = [i for i, n in enumerate(r["nodes"]) if n["k"] in ("sig", "elem") and "list2d" in n.get("tc", "")
+               or n["k"] in ("sig", "elem") and "list3d" in n.get("tc", "")]
+        if idx and kinds.count("struct-shape") < 8:
+            t = copy.deepcopy(_trace_of(r))
+            if _drop_inner_dim(t["nodes"][idx[0]]["ty"]):
+                can.append(t)
+                kinds.append("struct-shape")
+    # (i) the run-time width of a struct / list-field typed node altered
+    for r in okacc:
+        idx = [i for i, n in enumerate(r["nodes"]) if "tc" in n and n["rk"] == "bits" and n["sw"] > 0]
+        if idx and kinds.count("struct-runtime") < 8:
+            t = copy.deepcopy(_trace_of(r))
+            t["nodes"][idx[-1]]["rw"] -= 1
+            can.append(t)
+            kinds.append("struct-runtime")
+    # (j) a rejected struct <-> BitsN assignment of different widths that raises in simulation, flipped to accepted
+    n_flip = 0
+    for r, v in zip(good, verdicts):
+        if v[0] == "ok" and r["verdict"] == "rejected" and r["sim"]["raised"] and r["sim"]["cat"] == "width" \
+                and r.get("tag") in ("struct-wrong-width", "struct-model") and n_flip < 8 \
+                and not any(n["k"] in ("cast", "shift") for n in r["nodes"]):
+            t = copy.deepcopy(_trace_of(r))
+            t["accepted"] = True
+            for n in t["nodes"]:
+                n["sw"] = 0
+            can.append(t)
+            kinds.append("struct-flip")
+            n_flip += 1
+    need = {"static", "runtime", "literal", "flip", "raise", "lit", "struct-static", "struct-shape", "struct-runtime",
+            "struct-flip"}
     if need - set(kinds):
         raise MachineryError("no material for canaries of kind %s" % sorted(need - set(kinds)))
     _, cv = tlc.validate_traces("RTLIRTypesTrace", {"traces": can}, timeout=3000, chunk=len(can))
@@ -761,12 +934,19 @@ def run(res, tier):
         nonlocal t0
         tm[name] = round(time.time() - t0, 1)
         t0 = time.time()
+    del _DEFERRED[:]
     with scratch() as d:
-        cexs = _model_check(res, tier)
+        from concurrent.futures import ThreadPoolExecutor
+        with ThreadPoolExecutor(max_workers=1) as ex:       # the struct model next to the expression models
+            fut = ex.submit(_struct_model_check, res, tier)
+            cexs = _model_check(res, tier)
+            sstates = fut.result()
         lap("model_check")
         lt, lmeta = _literals(res, tier)
         good = _spec_to_code(res, tier, d, cexs)
         lap("spec_to_code")
+        good += _struct_spec_to_code(res, tier, d, sstates)
+        lap("struct_spec_to_code")
         good += _generated(res, tier, d)
         lap("generated")
         good += _repo_cases(res, tier)
@@ -784,6 +964,8 @@ def run(res, tier):
         _canaries(res, good, bv, lt, lv)
         lap("canaries")
     res.note("phase_seconds", tm)
+    if _DEFERRED and not res.violations:
+        raise MachineryError("; ".join(_DEFERRED))
     res.note("rule", "a case is one update block (one component class in a scratch module): every state of the "
              "TLC model graph (spec->code), random blocks over signals of widths %s with literals up to 2^70 at "
              "2^k / 2^k+-1 boundaries, loops, temporaries, struct fields, if-expressions, constant slices, "
